@@ -241,10 +241,17 @@ class Reader:
 
     def function(self, p):
         n, q = self.readint(p, "func.envcount")
+        cf = self.fields[-1]
         self.lookup.append(("function",))
         q = self.funcdef(q)
+        envs = []
         for _ in range(n):
+            q0 = q
             q = self.funcenv(q)
+            envs.append((q0, q))
+        # extents of the environments, for mutations that change the count *and* the payload consistently
+        cf.ctx["envs"] = envs
+        cf.ctx["envs_end"] = q
         return ("function",), q
 
     def funcenv(self, p):
@@ -621,7 +628,7 @@ HOT1 = {"fiber.flags", "fiber.frame", "fiber.stackstart", "fiber.stacktop", "fib
 HOT2 = {"def.flags", "def.slotcount", "def.arity", "def.min_arity", "def.max_arity", "def.constants_length",
         "def.bytecode_length", "def.environments_length", "def.defs_length", "def.symbolmap_length", "def.environment",
         "ref.index", "int64.value", "chan.closed", "rng.counter", "array.len", "tuple.len", "table.count", "struct.count",
-        "peg.const", "peg.seqlen", "peg.litlen"}
+        "peg.const", "peg.seqlen", "peg.litlen", "peg.num"}
 
 
 def hot_instr(f):
